@@ -63,6 +63,22 @@ def run(ctx):
             camp.sh.maybe_flush()
             if i < 3:
                 ctx.sample({"program": prog})
+        # the collection of OneOf / NoneOf may be any container: a bytes literal admits exactly its one-byte substrings for a one-byte member
+        import construct as cs
+        for name, mk, lst in (("OneOf", cs.OneOf, A.OneOf), ("NoneOf", cs.NoneOf, A.NoneOf)):
+            for coll in (b"+-", b"\x00\xff", b"A"):
+                oprog = {"k": "Opaque", "desc": "%s(Bytes(1), %r)" % (name, coll)}
+                ocon = mk(cs.Bytes(1), coll)
+                aprog = lst(A.Bytes(1), [bytes([c]) for c in coll])
+                acon = campaign.realizable(aprog)
+                for b0 in (range(256) if not quick else sorted(set(list(coll) + [0, 1, 43, 44, 45, 65, 254, 255]))):
+                    i1, _ = camp.parse(aprog, acon, bytes([b0]), 0, {})
+                    i2, _ = camp.parse(oprog, ocon, bytes([b0]), 0, {})
+                    camp.sh.session("C12.equiv", [i1, i2])
+                    i1, _ = camp.build(aprog, acon, bytes([b0]), b"", {})
+                    i2, _ = camp.build(oprog, ocon, bytes([b0]), b"", {})
+                    camp.sh.session("C12.equiv", [i1, i2])
+        camp.sh.maybe_flush()
         vs = camp.validate()
         def conf(v, m):
             k = campaign.kind_of(v)
@@ -75,7 +91,7 @@ def run(ctx):
             if k in common.ERRCLASS_KINDS and (v["exp"]["err"] == "ExplicitError" or v["got"]["err"] == "ExplicitError"):
                 return True
             return False
-        campaign.judge(ctx, camp, vs, conformance=conf, clauses=("C04.equiv",))
+        campaign.judge(ctx, camp, vs, conformance=conf, clauses=("C04.equiv", "C12.equiv"))
         for cid, m in camp.sh.meta.items():
             if "case" in m and not m["case"]["res"]["ok"]:
                 nt += 1
